@@ -461,6 +461,19 @@ def call_method(interp, recv, name, args, kwargs):
         if isinstance(old, str) and isinstance(new, str):
             if hasattr(z3, 'ReplaceAll'):
                 return wrap(z3.ReplaceAll(t, _s(old), _s(new)))
+            if len(old) == 1 and len(new) == 1 and old != new:
+                # all occurrences of one character by another: abstracted by what is true of the result
+                # (same length, the old character is gone, unchanged when it did not occur, and -- position
+                # by position -- a character other than the old one stays)
+                r = _fresh(interp, 'replaced')
+                o, nw = z3.StringVal(old), z3.StringVal(new)
+                st.assume(z3.Length(r) == z3.Length(t))
+                st.assume(z3.Not(z3.Contains(r, o)))
+                st.assume(z3.Implies(z3.Not(z3.Contains(t, o)), r == t))
+                st.assume(z3.Implies(z3.Length(t) > 0,
+                                     z3.If(z3.PrefixOf(o, t), z3.PrefixOf(nw, r),
+                                           z3.SubString(r, 0, 1) == z3.SubString(t, 0, 1))))
+                return SStr(r)
         raise Unsupported('str.replace (all occurrences) with symbolic pattern')
     if name == 'zfill':
         w = args[0]
